@@ -225,7 +225,10 @@ def suite_decompose(ctx, res, n):
         t = cases[i]
         comp = [unfr(v) for v in c["r"]]
         scale = 1 + max(abs(F(v)) for v in t)
-        if not all(abs(x - F(y)) <= F(1e-6) * scale for x, y in zip(comp, t)):
+        # the code rounds the residual to 9 decimals: that rounding is amplified by the size of the uniform part (near-singular inputs
+        # give translations of 1e6 and more, which the overflow check then refuses to emit)
+        amp = F(2e-9) * max(abs(F(v)) for v in real[i]["u"])
+        if not all(abs(x - F(y)) <= F(1e-6) * scale + amp for x, y in zip(comp, t)):
             res.add_cex("_decompose_uniform_transform parts do not compose back to the input affine",
                         {"call": "nanoemoji.paint._decompose_uniform_transform", "transform": list(t), "impl": real[i],
                          "composed": [float(v) for v in comp]},
